@@ -119,7 +119,7 @@ func Statuses(rows []string, opt Options) (st [][]PairStatus, clean bool) {
 	}
 	clean = true
 	refs := []*Ref{}
-	for _, rd := range Readings(rows, opt, []bool{false, true}) {
+	for _, rd := range Readings(rows, opt) {
 		refs = append(refs, Reference(rows, opt, rd))
 	}
 	for i := 0; i < n; i++ {
